@@ -1,4 +1,6 @@
 import FFVerif.Props.C16
+import FFVerif.Props.C16Kron
+import FFVerif.Props.C16KronIns
 import FFVerif.Pins.pinTensorInsert
 import FFVerif.Pins.pinTensorMerge
 import FFVerif.Pins.pinTensorTranspose
@@ -33,6 +35,18 @@ import FFVerif.Pins.pinTensorTranspose
 #print axioms FFVerif.C16.insertSubscripts_consistent
 #print axioms FFVerif.C16.splitInsertIndex_formula
 #print axioms FFVerif.C16.splitInsertIndex_bookkeeping
+#print axioms FFVerif.C16Kron.mergeSigma_eq_mergeResult
+#print axioms FFVerif.C16Kron.tensorMergeNum_isChain'
+#print axioms FFVerif.C16Kron.tensorMergeNum_eq_chain
+#print axioms FFVerif.C16Kron.insertSpec_single
+#print axioms FFVerif.C16Kron.tensorInsertNum_single_isChain'
+#print axioms FFVerif.C16Kron.tensorInsertNum_eq_chain_partial
+#print axioms FFVerif.C16Kron.kronMat_apply
+#print axioms FFVerif.C16Kron.isChain_iff_kronMat
+#print axioms FFVerif.C16Kron.tensorChain_eq_kron
+#print axioms FFVerif.C16Kron.tensorChain_entry
+#print axioms FFVerif.C16Kron.tensorTransposeNum_eq_chain
+#print axioms FFVerif.C16Kron.tensorTransposeNum_eq_kron
 #print axioms FFVerif.Pins.pinTensorInsert
 #print axioms FFVerif.Pins.pinTensorMerge
 #print axioms FFVerif.Pins.pinTensorTranspose
